@@ -5,9 +5,12 @@ import SpoxModel.Lemmas.BuildAlgDiscover
 import SpoxModel.Lemmas.BuildAlgLeak
 import SpoxModel.Lemmas.BuildAlgScope
 import SpoxModel.Lemmas.BuildAlgOrder
+import SpoxModel.Lemmas.BuildAlgPlaced
 import SpoxModel.Lemmas.BridgeWalk
 import SpoxModel.Lemmas.BridgeFacts
 import SpoxModel.Props.C01
+import SpoxModel.Model.BuildAlgCover
+import SpoxModel.Generated.BuildAlgFacts
 /-! Property theorems for C04 (only property-level statements and non-vacuity examples live here). -/
 namespace C04
 open BuildAlg
@@ -311,6 +314,126 @@ theorem scope_defined (p : Prog) (hwf : WF p) (b : Built) (tr : List Ev)
       rw [hnil] at this; cases this
     · exact ⟨d, T⟩
 
+
+/-! ### position in the built model = scope (`placed` reads the nested emission like the ModelProto is read) -/
+
+theorem build_compile (p : Prog) (b : Built) (tr : List Ev) (h : build p = .ok (b, tr)) :
+    ∃ cs, compileG p b (p.graphs.length + 1) 0 ⟨[], []⟩ = .ok cs ∧ tr = cs.trace.reverse := by
+  unfold build at h
+  split at h
+  · cases h
+  · simp only at h
+    split at h
+    · cases h
+    · split at h
+      · cases h
+      · rename_i cs hcs
+        cases h
+        exact ⟨cs, hcs, rfl⟩
+
+/-- **placed_in_scope**: in the nested emission of a successful build every vertex sits in the graph
+    `scope_of` assigns to it (the innermost graph open when it is emitted is its scope). -/
+theorem placed_in_scope (p : Prog) (b : Built) (tr : List Ev) (h : build p = .ok (b, tr))
+    (v : V) (g : Nat) (hp : (v, g) ∈ placed tr []) : b.scopeOf.get v = some g := by
+  obtain ⟨cs, hcs, rfl⟩ := build_compile p b tr h
+  obtain ⟨new, ht, hok⟩ := relOK_compileG p b _ 0 _ cs hcs
+  simp only [List.append_nil] at ht
+  obtain ⟨pl, e, q⟩ := hok [] []
+  rw [ht] at hp
+  simp only [List.append_nil, placed] at e
+  rw [e] at hp
+  exact q (v, g) hp
+
+/-- **emitted_in_least_enclosing** (the property statement about positions): every operator
+    application of the built model sits in exactly one graph, and that graph is the innermost one
+    enclosing all its uses: the lowest common ancestor, in the final scope tree, of all graphs that
+    read it through input edges — it encloses each of them and every graph enclosing all of them
+    encloses it. -/
+theorem emitted_in_least_enclosing (p : Prog) (hwf : WF p) (b : Built) (tr : List Ev)
+    (h : build p = .ok (b, tr)) (v : V) (hv : v ∈ emitted tr) :
+    ∃ g, (v, g) ∈ placed tr [] ∧ (∀ g', (v, g') ∈ placed tr [] → g' = g) ∧
+      LowestP (parent b.owner b.scopeOf)
+        (fun G => G ∈ b.graphTopo ∧ Reach p.adjIn (.src G) v) g := by
+  rw [← placed_fst tr []] at hv
+  obtain ⟨⟨v', g⟩, hm, hv'⟩ := List.mem_map.mp hv
+  simp only at hv'
+  subst hv'
+  have hs := placed_in_scope p b tr h v' g hm
+  refine ⟨g, hm, ?_, least_enclosing p hwf b tr h v' g hs⟩
+  intro g' hm'
+  have hs' := placed_in_scope p b tr h v' g' hm'
+  rw [hs] at hs'
+  cases hs'; rfl
+
+/-- … and exactly once there (`emitted_once` + `placed_fst`): the list of positions has one entry per
+    emitted vertex. -/
+theorem placed_once (p : Prog) (hwf : WF p) (b : Built) (tr : List Ev)
+    (h : build p = .ok (b, tr)) : ((placed tr []).map Prod.fst).Nodup := by
+  rw [placed_fst]; exact emitted_nodup p hwf b tr h
+
+/-! ### values depending on a body's own arguments are not read from above (outer half) -/
+
+/-- **arg_dependent_not_read_above**: in a successful build, a value that depends — through any chain
+    of input edges — on an argument of a body `s` is not read (through input edges, i.e. outside every
+    body) by the main graph or any graph `g` that `s` is nested below. The sibling half is the final
+    checker's (see `exSiblingLeak`). -/
+theorem arg_dependent_not_read_above (p : Prog) (hwf : WF p) (b : Built) (tr : List Ev)
+    (h : build p = .ok (b, tr)) (g s : Nat) (hg : g ∈ b.graphTopo) (hs : Below p s g)
+    (pg : PGraph) (l : List Nat) (hpg : p.graphs[s]? = some pg) (hl : pg.args = some l)
+    (a : Nat) (ha : a ∈ l) (v : V) (hdep : Reach p.adjIn v (.node a)) :
+    ¬ Reach p.adjIn (.src g) v :=
+  fun hr => no_outer_leak p hwf b tr h g s hg hs pg l hpg hl a ha (Reach.trans hr hdep)
+
+/-! ### `spox.build(inputs, outputs, drop_unused_inputs=…)` -/
+
+/-- **public_inputs_sublist**: with `drop_unused_inputs=True` the inputs of the returned model are a
+    sub-list of the given inputs — nothing is invented, the given relative order is kept. -/
+theorem public_inputs_sublist (p : Prog) (inputs : List Nat) (b : Built) (tr : List Ev)
+    (kept : List Nat) (h : publicBuild p inputs true = .ok (b, tr, kept)) :
+    kept.Sublist inputs := by
+  unfold publicBuild at h
+  split at h
+  · cases h
+  · simp only at h
+    split at h
+    · cases h
+    · cases h
+      simp only [keptInputs, if_true]
+      exact List.filter_sublist
+
+/-- **public_inputs_exact**: an input is kept iff it was given and the traversal found it as an
+    argument of the main graph (`arguments_of[main]`, which no body claims); and every argument the
+    main graph needs was given (else `KeyError`), with or without `drop_unused_inputs`. -/
+theorem public_inputs_exact (p : Prog) (inputs : List Nat) (drop : Bool) (b : Built) (tr : List Ev)
+    (kept : List Nat) (h : publicBuild p inputs drop = .ok (b, tr, kept)) :
+    (∀ a, a ∈ lookupL b.argsOf 0 → a ∈ inputs) ∧
+    (∀ a, a ∈ kept ↔ a ∈ inputs ∧ a ∈ lookupL b.argsOf 0) ∧
+    build (p.withMainArgs (if drop then none else some inputs)) = .ok (b, tr) := by
+  unfold publicBuild at h
+  split at h
+  · cases h
+  · rename_i b' tr' hb
+    simp only at h
+    split at h
+    · cases h
+    · rename_i hany
+      cases h
+      have hall : ∀ a, a ∈ lookupL b.argsOf 0 → a ∈ inputs := by
+        intro a ha
+        apply Classical.byContradiction
+        intro hn
+        apply hany
+        rw [List.any_eq_true]
+        exact ⟨a, ha, by simpa using hn⟩
+      refine ⟨hall, ?_, hb⟩
+      intro a
+      cases drop with
+      | true =>
+        simp only [keptInputs, if_true, List.mem_filter, List.contains_iff_mem]
+      | false =>
+        simp only [keptInputs, Bool.false_eq_true, if_false]
+        exact ⟨fun ha => ⟨hall a ha, ha⟩, fun ha => ha.2⟩
+
 /-! ### the bridge to the shared program model (C01): the built emission is accepted by `validG` -/
 
 /-- **build_valid_of_facts**: from the scope facts `BridgeFacts` (all of which are consequences of the
@@ -359,6 +482,54 @@ theorem build_valid (p : BuildAlg.Prog) (hwf : WF p) (b : Built) (tr : List Ev)
   rw [← hown, ← htopo] at TF
   obtain ⟨d, F⟩ := Bridge.bridgeFacts p hwf b st hdi htopo hown TF hinv hbtopo hargs LF
   exact build_valid_of_facts p hwf b tr h d F
+
+/-! ### `LeakFree` derived from a condition on graphs only -/
+
+/-- The graph-level discipline of the front end (closures only capture values of enclosing callbacks):
+    every argument that some discovered graph reads directly (input edges from its source) belongs to
+    a graph that encloses, in the final scope tree, every discovered graph reading it directly.
+    Nothing is said about nodes or their scopes. -/
+def ReadersEnclosed (p : Prog) (b : Built) : Prop :=
+  ∀ a, p.isArg a = true →
+    (∃ G, G ∈ b.graphTopo ∧ Reach p.adjIn (.src G) (.node a)) →
+    ∃ t, a ∈ lookupL b.argsOf t ∧
+      ∀ G, G ∈ b.graphTopo → Reach p.adjIn (.src G) (.node a) →
+        Anc (parent b.owner b.scopeOf) t G
+
+/-- **leakFree_of_readers**: the node-level hypothesis `LeakFree` (every argument a node reads belongs
+    to a graph enclosing the node's *scope*) follows from the graph-level one: the scope of a node is
+    the lowest common ancestor of the graphs reading it (`least_enclosing`), each of which reads the
+    argument too, so the owner of the argument — enclosing them all — encloses the scope. -/
+theorem leakFree_of_readers (p : Prog) (hwf : WF p) (b : Built) (tr : List Ev)
+    (h : build p = .ok (b, tr)) (R : ReadersEnclosed p b) : Bridge.LeakFree p b := by
+  obtain ⟨st, _, _, htopo, hown, hso, F⟩ := discover_final p hwf b tr h
+  have hinv := scope_fold p hwf st.owner st.topo.reverse F (lcaFuel st.topo.reverse)
+    (by simp only [lcaFuel]; omega) st.topo.reverse [] [] (by simp) (sinv_empty p st.owner)
+  rw [← hso, ← hown, ← htopo] at hinv
+  have hiff : ∀ G v, v ∈ p.postIn G ↔ Reach p.adjIn (.src G) v := fun G v =>
+    mem_visit_iff (rankV p) (rank_adjIn p hwf) p.fuel (.src G) v (rank_src_lt_fuel p hwf G)
+  constructor
+  · intro n c a _ hc ha harg
+    obtain ⟨g0, hg0, hv0⟩ := hinv.wit (.node n) c hc
+    have hstep : ∀ G, Reach p.adjIn (.src G) (.node n) → Reach p.adjIn (.src G) (.node a) :=
+      fun G hr => Reach.step hr (by simp only [Prog.adjIn, List.mem_map]; exact ⟨a, ha, rfl⟩)
+    obtain ⟨t, hat, henc⟩ := R a harg ⟨g0, hg0, hstep g0 ((hiff g0 _).mp hv0)⟩
+    refine ⟨t, ?_, hat⟩
+    apply (hinv.low (.node n) c hc).2 t
+    rintro G ⟨hG, hGv⟩
+    exact henc G hG (hstep G ((hiff G _).mp hGv))
+  · intro s a hs ha harg
+    have hr : Reach p.adjIn (.src s) (.node a) :=
+      Reach.step (Reach.refl _) (by simp only [Prog.adjIn, List.mem_map]; exact ⟨a, ha, rfl⟩)
+    obtain ⟨t, hat, henc⟩ := R a harg ⟨s, hs, hr⟩
+    exact ⟨t, henc s hs hr, hat⟩
+
+/-- **build_valid_of_readers**: `build_valid` with the graph-level hypothesis. -/
+theorem build_valid_of_readers (p : BuildAlg.Prog) (hwf : WF p) (b : Built) (tr : List Ev)
+    (h : build p = .ok (b, tr)) (R : ReadersEnclosed p b) :
+    Prog.validG (Bridge.toProg p b.argsOf).nodes (Bridge.toEGraph p b)
+      (Bridge.toProg p b.argsOf).main [] = true :=
+  build_valid p hwf b tr h (leakFree_of_readers p hwf b tr h R)
 
 /-- `build_valid` with every hypothesis executable (what the driver evaluates on each case). -/
 theorem build_valid_checked (p : BuildAlg.Prog) (hwf : p.WFb = true) (b : Built) (tr : List Ev)
@@ -448,6 +619,11 @@ example : ∃ b tr, build exNested = .ok (b, tr) ∧ b.scopeOf.get (.node 2) = s
     parent b.owner b.scopeOf 4 = 0 := by
   refine ⟨_, _, rfl, ?_, ?_, ?_, ?_⟩ <;> decide
 
+/-- `emitted_in_least_enclosing` on the probe: `e` (2) is placed in main and nowhere else -/
+example : ∃ b tr, build exNested = .ok (b, tr) ∧ V.node 2 ∈ emitted tr ∧
+    (placed tr []).filter (fun e => e.1 == V.node 2) = [(V.node 2, 0)] := by
+  refine ⟨_, _, rfl, ?_, ?_⟩ <;> decide
+
 /-- a Loop body argument (4) leaked to the main graph: 7 = Add(Loop, arg 4) -/
 def exOuterLeak : Prog :=
   { nodes := [⟨true, [], []⟩, ⟨true, [], []⟩, ⟨true, [], []⟩, ⟨true, [], []⟩, ⟨true, [], []⟩,
@@ -463,6 +639,32 @@ example : ∀ b tr, build exOuterLeak ≠ .ok (b, tr) := by
   exact leak_rejected exOuterLeak (wf_of_wfb _ (by decide)) 0 1 (Or.inl rfl)
     (Below.direct (n := 6) (Reach.step r7 (by decide)) (by decide))
     ⟨some [2, 3, 4], [3, 5]⟩ [2, 3, 4] rfl rfl 4 (by decide) (Reach.step r7 (by decide))
+
+/-- a Loop whose body computes `Neg(carried)`: ids 0 x, 1 c, 2 3 4 the body's arguments, 5 Neg(4), 6 Loop -/
+def exLoop : Prog :=
+  { nodes := [⟨true, [], []⟩, ⟨true, [], []⟩, ⟨true, [], []⟩, ⟨true, [], []⟩, ⟨true, [], []⟩,
+              ⟨false, [4], []⟩, ⟨false, [0], [1]⟩],
+    graphs := [⟨some [0, 1], [6]⟩, ⟨some [2, 3, 4], [3, 5]⟩] }
+
+example : exLoop.WFb = true := by decide
+
+/-- the hypotheses of `arg_dependent_not_read_above` are satisfiable: the build succeeds, `Neg(carried)`
+    is placed in the body and the main graph does not read it -/
+example : ∃ b tr, build exLoop = .ok (b, tr) ∧ (V.node 5, 1) ∈ placed tr [] ∧
+    ¬ Reach exLoop.adjIn (.src 0) (.node 5) := by
+  refine ⟨_, _, rfl, by decide, ?_⟩
+  exact arg_dependent_not_read_above exLoop (wf_of_wfb _ (by decide)) _ _ rfl 0 1 (by decide)
+    (Below.direct (n := 6) (Reach.step (Reach.refl _) (by decide)) (by decide))
+    ⟨some [2, 3, 4], [3, 5]⟩ [2, 3, 4] rfl rfl 4 (by decide) (.node 5)
+    (Reach.step (Reach.refl _) (by decide))
+
+/-- `spox.build(..., drop_unused_inputs=True)` with the inputs given as (c, x): in `exLoop` nobody reads
+    `c`, it is dropped; in `exNested` both are read (inside bodies too) and keep the given order; a
+    needed input that was not given is a `KeyError`; without `drop_unused_inputs` both stay -/
+example : (publicBuild exLoop [1, 0] true).toOption.map (·.2.2) = some [0] := by decide
+example : (publicBuild exNested [1, 0] true).toOption.map (·.2.2) = some [1, 0] := by decide
+example : (publicBuild exLoop [1] true).toOption.map (·.2.2) = none := by decide
+example : (publicBuild exLoop [1, 0] false).toOption.map (·.2.2) = some [1, 0] := by decide
 
 /-- sibling leak (design probe p4): the second Loop body uses the first body's argument 4. The
     Builder itself does not object (`build` succeeds, both bodies hang off the main graph); it is the
@@ -481,5 +683,29 @@ example : ∃ b tr, build exSiblingLeak = .ok (b, tr) ∧ structOk exSiblingLeak
    inductive) is too expensive for a `decide`/`rfl` example; instead the native driver evaluates
    `validG (toProg p) (toEGraph (build p))` on every generated case of every run (about 6 000 built
    programs per quick run, all accepted; facet `bridge_valid` of the C04 correspondence). -/
+
+
+/-! ### tie G: the inventory of `_build.py`, regenerated from the source on every run, is what the model covers -/
+
+/-- every function of `_build.py` has a model counterpart (`BuildAlgCover.methods` names it) -/
+theorem generated_methods_covered :
+    Generated.BuildAlgFacts.methods = BuildAlgCover.methods.map (·.1) := by decide
+
+/-- no module-level state in `_build.py` (a module-level cache would be a new name) -/
+theorem generated_module_names_covered :
+    Generated.BuildAlgFacts.moduleNames = BuildAlgCover.moduleNames := by decide
+
+/-- class-level attributes: the annotated Builder / ScopeTree / BuildResult fields, nothing assigned -/
+theorem generated_class_attrs_covered :
+    Generated.BuildAlgFacts.classAttrs = BuildAlgCover.classAttrs := by decide
+
+/-- every write site of Builder state is one the model has (per method: attribute and how) -/
+theorem generated_writes_covered :
+    Generated.BuildAlgFacts.writes = BuildAlgCover.writes.map (fun e => (e.1, e.2.1, e.2.2.1)) := by
+  decide
+
+/-- the call targets of every function are the ones the model follows -/
+theorem generated_calls_covered :
+    Generated.BuildAlgFacts.calls = BuildAlgCover.calls := by decide
 
 end C04
